@@ -71,6 +71,7 @@ static inline int lockfree_ring_buffer_trypush(lockfree_ring_buffer_t* rb,
       atomic_compare_exchange_weak_explicit(&rb->high, &high, high + 1,
                                             memory_order_release,
                                             memory_order_relaxed)) {
+    FIBER_VERIF_POINT(FV_RB_PUSH_MID, rb, index);
     rb->buffer[index] = in;
     return 1;
   }
@@ -99,6 +100,7 @@ static inline void* lockfree_ring_buffer_trypop(lockfree_ring_buffer_t* rb) {
       atomic_compare_exchange_weak_explicit(&rb->low, &low, low + 1,
                                             memory_order_acquire,
                                             memory_order_relaxed)) {
+    FIBER_VERIF_POINT(FV_RB_POP_MID, rb, index);
     rb->buffer[index] = 0;
     return ret;
   }
